@@ -28,7 +28,7 @@ theorem text_escaped_once : ∀ d : Str, renderTextData false d = escape d := by
     symm
     apply escape_of_no_special
     simp only [Generated.needsHTMLEscape] at h
-    cases hf : firstSome d (fun c_i => if ((c_i == '&') || (c_i == '<') || (c_i == '>') || (c_i == '"') || (c_i == '\'')) then (some true) else none) with
+    cases hf : firstSome d (fun c_i => if ((c_i == '&') || (c_i == '<') || (c_i == '>') || (c_i == '"') || (c_i == '\'') || (c_i == '\r')) then (some true) else none) with
     | some b =>
       -- the loop body only ever returns `true`
       exfalso
